@@ -65,7 +65,7 @@ func nonTestIDClass(id string) string {
 }
 
 func checkC07(c *vkit.Ctx) {
-	c.P.Rule = "case = generated program run by the real go test runner: 2-8 top-level tests with nested subtests (and fuzz seed-corpus entries), 0-12 calls per test over default/custom/shared files, custom extensions, relative and absolute directories, standalone and standalone-JSON; recorded once, then stale entries/files planted around the live ones and entry order optionally permuted, then the judged process with -count in {1,2,3,5}, optional -run pattern, UPDATE_SNAPS in {unset,clean,true,other}, Sort on/off; oracle over the event log and the pre/post-Clean copies: every slot and standalone file addressed in the judged process is present after Clean with the same raw body, is not named in either obsolete list, and a following CI (read-only) process passes on it; non-trivial = >=2 calls in some test and (count>1 or >=2 files or standalone present); distinct by hash(scenario, flags)"
+	c.P.Rule = "(every 10th case: three tests address ONE snapshot directory under two spellings - a symbolic link and the real path in an ordinary build, a relative and an absolute Dir in a -trimpath build - with multi-entry and standalone calls; recorded, then judged under a random Clean mode: every call passes, so nothing may be listed or removed and every entry and file must still be there) case = generated program run by the real go test runner: 2-8 top-level tests with nested subtests (and fuzz seed-corpus entries), 0-12 calls per test over default/custom/shared files, custom extensions, relative and absolute directories, standalone and standalone-JSON; recorded once, then stale entries/files planted around the live ones and entry order optionally permuted, then the judged process with -count in {1,2,3,5}, optional -run pattern, UPDATE_SNAPS in {unset,clean,true,other}, Sort on/off; oracle over the event log and the pre/post-Clean copies: every slot and standalone file addressed in the judged process is present after Clean with the same raw body, is not named in either obsolete list, and a following CI (read-only) process passes on it; non-trivial = >=2 calls in some test and (count>1 or >=2 files or standalone present); distinct by hash(scenario, flags)"
 	c.P.Assumptions = []string{"the program makes the same calls on every execution (what cumulative/count can know)", "the real runner decides what ran (enter events)"}
 	p, done := workerProgram(c, "")
 	defer done()
